@@ -25,8 +25,10 @@ pub enum CbKind {
     SetKeyAccessor = 10,
     SetComparator = 11,
     SegValExpiration = 12,
+    /// `Clone` of a value the caller inserted (only counted while `clone_hook(true)`)
+    ValueClone = 13,
 }
-pub const N_KINDS: usize = 13;
+pub const N_KINDS: usize = 14;
 pub const KIND_NAMES: [&str; N_KINDS] = [
     "key_cmp",
     "key_partial_cmp",
@@ -41,6 +43,7 @@ pub const KIND_NAMES: [&str; N_KINDS] = [
     "set_key_accessor",
     "set_comparator",
     "seg_val_expiration",
+    "value_clone",
 ];
 
 /// (key, expiration, tag) of a key handed to user code; for non-expiring families exp = tag = 0.
@@ -139,7 +142,20 @@ fn kind_from(x: u8) -> CbKind {
         SetKeyAccessor,
         SetComparator,
         SegValExpiration,
+        ValueClone,
     ][x as usize]
+}
+
+thread_local! {
+    static CLONE_HOOK: Cell<bool> = Cell::new(false);
+}
+/// while on, cloning a caller-inserted payload counts as a user callback (and can be armed to panic)
+pub fn clone_hook(on: bool) {
+    CLONE_HOOK.with(|c| c.set(on))
+}
+/// kinds of the callbacks recorded since `log_enable(true)`
+pub fn log_kinds() -> Vec<CbKind> {
+    CTL.with(|c| c.log.borrow().iter().map(|e| e.kind).collect())
 }
 pub fn log_enable(on: bool) {
     CTL.with(|c| {
@@ -227,13 +243,18 @@ const MAGIC: u64 = 0x5EED_F00D_CAFE_0000;
 pub struct Payload {
     cell: Box<u64>,
     id: u64,
+    /// false for the fillers the library builds itself through `Default`
+    real: bool,
 }
 
 impl Payload {
     pub fn new(id: u64) -> Self {
+        Self::make(id, true)
+    }
+    fn make(id: u64, real: bool) -> Self {
         LIVE.with(|l| l.set(l.get() + 1));
         CREATED.with(|l| l.set(l.get() + 1));
-        Payload { cell: Box::new(id ^ MAGIC), id }
+        Payload { cell: Box::new(id ^ MAGIC), id, real }
     }
     /// the payload is intact iff its heap cell still encodes its id
     #[inline]
@@ -247,12 +268,15 @@ impl Payload {
 }
 impl Clone for Payload {
     fn clone(&self) -> Self {
-        Payload::new(self.id)
+        if self.real && CLONE_HOOK.with(|c| c.get()) {
+            hit(CbKind::ValueClone, (self.id as i32, 0, 0), (0, 0, 0));
+        }
+        Payload::make(self.id, self.real)
     }
 }
 impl Default for Payload {
     fn default() -> Self {
-        Payload::new(0)
+        Payload::make(0, false)
     }
 }
 impl Drop for Payload {
